@@ -364,6 +364,102 @@ QPageLinksLoop(st, g) ==
                                             !.todo = IF doIn THEN <<node.i>> ELSE <<>>])
           ELSE QPageLinksLoop(st, [g EXCEPT !.stack = QPush(rest, g.start, pend)])
 
+(***************************************************************************)
+(* get_webentities_links_slow_iter(out, include_auto) - the "slow" network *)
+(* query.  ONE pass: dfs_with_webentity_iter; for a page that has links    *)
+(* and a webentity the page is recorded in the block -> webentity cache,   *)
+(* its list is read at once, and every item is resolved when its turn      *)
+(* comes - from the cache if the block was seen, else bottom-up NOW (and   *)
+(* cached if found).  A yield point after every edge counted.  The         *)
+(* traversal pushes the suspended node's pointers from the copy read       *)
+(* before the yield.                                                       *)
+(***************************************************************************)
+NewNetSlowQuery(out, auto) ==
+  [kind |-> "qnetslow", out |-> out, auto |-> auto, phase |-> "run", started |-> FALSE, stack |-> <<>>,
+   pend |-> [has |-> FALSE], map |-> {}, cur |-> <<>>, curwe |-> 0,
+   graph |-> {}, pages |-> 0, created |-> <<>>, done |-> FALSE, exc |-> ""]
+
+RECURSIVE QNetSlowLoop(_, _)
+QNetSlowLoop(st, g) ==
+  IF g.cur # <<>> THEN
+    LET it   == g.cur[1]
+        hit  == MapGet(g.map, it[1])
+        twe  == IF hit # 0 THEN hit ELSE WindupWe(st.trie, it[1])
+        g1   == [g EXCEPT !.cur = Tail(@), !.map = IF twe # 0 THEN MapSet(@, it[1], twe) ELSE @]
+    IN IF twe = 0 \/ (~g.auto /\ twe = g.curwe) THEN QNetSlowLoop(st, g1)
+       ELSE [st |-> st, g |-> [g1 EXCEPT !.graph = GAdd(@, g.curwe, twe, it[2])]]      \* counted: yield
+  ELSE IF g.pend.has THEN QNetSlowLoop(st, [g EXCEPT !.stack = NPush(@, g.pend), !.pend = [has |-> FALSE]])
+  ELSE IF g.stack = <<>> THEN [st |-> st, g |-> [g EXCEPT !.done = TRUE]]
+  ELSE LET top  == g.stack[Len(g.stack)]
+           rest == SubSeq(g.stack, 1, Len(g.stack) - 1)
+           node == st.trie[top.b]
+           cw   == IF node.we # 0 THEN node.we ELSE top.we
+           pend == [has |-> TRUE, node |-> node, inh |-> top.we, cw |-> cw]
+           head == IF g.out THEN node.o ELSE node.i
+       IN IF node.pg /\ head # 0 /\ cw # 0
+          THEN QNetSlowLoop(st, [g EXCEPT !.stack = rest, !.pend = pend, !.map = MapSet(@, top.b, cw),
+                                         !.curwe = cw, !.cur = Weighted(st.ls, head)])
+          ELSE QNetSlowLoop(st, [g EXCEPT !.stack = NPush(rest, pend)])
+
+RunQNetSlow(st, g) ==
+  QNetSlowLoop(st, IF g.started THEN g
+                   ELSE [g EXCEPT !.started = TRUE,
+                                  !.stack = IF Len(st.trie) = 0 THEN <<>> ELSE <<[b |-> 1, we |-> 0]>>])
+
+(***************************************************************************)
+(* get_webentity_most_linked_pages_iter(weid, ps, k, max_depth):           *)
+(* webentity_dfs_iter with the depth limit, a yield point after EVERY node *)
+(* the traversal reports (page or not).  A page's inbound list is read     *)
+(* when the page is met; a min-heap of (indegree, arrival, lru) keeps the  *)
+(* k largest.  The last step sorts them, largest first.                    *)
+(***************************************************************************)
+NewTopQuery(ps, k, depth) ==
+  [kind |-> "qtop", ps |-> ps, k |-> k, depth |-> depth, pi |-> 0, start |-> 0, stack |-> <<>>,
+   pend |-> [has |-> FALSE], heap |-> {}, c |-> 0, acc |-> <<>>, phase |-> "run",
+   pages |-> 0, created |-> <<>>, done |-> FALSE, exc |-> ""]
+
+TLess(a, b) == a[1] < b[1] \/ (a[1] = b[1] /\ a[2] < b[2])
+TPush(stack, start, depth, pend) ==
+  stack
+  \o (IF pend.b # start
+      THEN (IF pend.node.r # 0 THEN <<[b |-> pend.node.r, pre |-> pend.pre, lv |-> pend.lv]>> ELSE <<>>)
+           \o (IF pend.node.l # 0 THEN <<[b |-> pend.node.l, pre |-> pend.pre, lv |-> pend.lv]>> ELSE <<>>)
+      ELSE <<>>)
+  \o (IF pend.rel /\ pend.node.ch # 0 /\ ~(depth # Unlimited /\ pend.lv >= depth)
+      THEN <<[b |-> pend.node.ch, pre |-> pend.cur, lv |-> pend.lv + 1]>> ELSE <<>>)
+
+RECURSIVE TopSorted(_)
+TopSorted(H) ==
+  IF H = {} THEN <<>>
+  ELSE LET m == CHOOSE x \in H : \A y \in H : y = x \/ TLess(y, x)
+       IN <<[l |-> m[3], n |-> m[1]]>> \o TopSorted(H \ {m})
+
+RECURSIVE QTopLoop(_, _)
+QTopLoop(st, g) ==
+  IF g.pend.has THEN QTopLoop(st, [g EXCEPT !.stack = TPush(@, g.start, g.depth, g.pend), !.pend = [has |-> FALSE]])
+  ELSE IF g.stack = <<>> THEN
+    IF g.pi >= Len(g.ps) THEN [st |-> st, g |-> [g EXCEPT !.done = TRUE, !.acc = TopSorted(g.heap)]]
+    ELSE LET p == g.ps[g.pi + 1]
+             n == LruNode(st.trie, p)
+         IN IF n = 0 THEN [st |-> st, g |-> [g EXCEPT !.done = TRUE, !.exc = "TraphException"]]
+            ELSE QTopLoop(st, [g EXCEPT !.pi = @ + 1, !.start = n,
+                                        !.stack = <<[b |-> n, pre |-> SubSeq(p, 1, Len(p) - 1), lv |-> 0]>>])
+  ELSE LET top  == g.stack[Len(g.stack)]
+           rest == SubSeq(g.stack, 1, Len(g.stack) - 1)
+           node == st.trie[top.b]
+           rel  == top.b = g.start \/ node.we = 0
+           cur  == Append(top.pre, node.s)
+           pend == [has |-> TRUE, node |-> node, b |-> top.b, pre |-> top.pre, cur |-> cur, rel |-> rel, lv |-> top.lv]
+           deg  == IF node.i = 0 THEN 1 ELSE Len(Deduped(st.ls, node.i))     \* the header read as a stub (F9)
+           h1   == g.heap \cup {<<deg, g.c + 1, cur>>}
+           h2   == IF Cardinality(h1) > g.k
+                   THEN h1 \ {CHOOSE x \in h1 : \A y \in h1 : y = x \/ TLess(x, y)} ELSE h1
+       IN IF rel
+          THEN [st |-> st,
+                g |-> IF node.pg THEN [g EXCEPT !.stack = rest, !.pend = pend, !.heap = h2, !.c = @ + 1]
+                      ELSE [g EXCEPT !.stack = rest, !.pend = pend]]
+          ELSE QTopLoop(st, [g EXCEPT !.stack = TPush(rest, g.start, g.depth, pend)])
+
 RunGen(st, ram, def, g) ==
   IF g.kind = "crawl" THEN RunCrawl(st, ram, def, g)
   ELSE IF g.kind = "qpages" THEN RunQPages(st, g)
@@ -371,6 +467,8 @@ RunGen(st, ram, def, g) ==
   ELSE IF g.kind = "qlinks" THEN RunQLinks(st, g)
   ELSE IF g.kind = "qchildren" THEN QChildrenLoop(st, g)
   ELSE IF g.kind = "qpagelinks" THEN QPageLinksLoop(st, g)
+  ELSE IF g.kind = "qnetslow" THEN RunQNetSlow(st, g)
+  ELSE IF g.kind = "qtop" THEN QTopLoop(st, g)
   ELSE RunRule(st, ram, def, g)
 
 =============================================================================
